@@ -5,6 +5,7 @@ import DSV.Lemmas.Outcome
 import DSV.Lemmas.Tally
 import DSV.Lemmas.AggsFun
 import DSV.Props.C11
+import DSV.Lemmas.OutcomeAggs
 import DSV.Props.C14Observe
 /-!
 # C02 — LLO numeric aggregates and the outcome timestamp stay within the honest range
@@ -409,6 +410,32 @@ example : ([some (SV.dec ⟨1, 0⟩), none, some (SV.dec ⟨2, 0⟩)] : List (Op
     (∀ h ∈ [SV.dec ⟨1, 0⟩, SV.dec ⟨2, 0⟩], h.type = 0) := by
   refine ⟨?_, by decide, by decide⟩
   exact List.Perm.cons _ (List.Perm.swap _ _ _)
+
+/-- **quote aggregate, at the level of `Outcome()`**: for a stream that some channel of the new
+    outcome aggregates with the quote aggregator, if the correct observers' valid quotes outnumber the
+    other entries reported for the stream and there are more than `f` of them, the outcome holds a
+    fresh quote whose components are ordered and each lies within the range of that component over
+    the correct quotes -/
+theorem outcome_quote_honest (env : Env) (cfg : Cfg) (σ : Sched) (hσ : σ.IsSched) (n : Nat) (prev o : Outcome)
+    (obs : List Obs) (hvals : ∀ x ∈ obs, GoMap.WF x.values) (h : outcome env cfg σ n prev obs = .ok o)
+    (sid : Nat) (href : ∃ e ∈ o.defs, (⟨sid, aggQuote⟩ : Stream) ∈ e.2.streams)
+    (hs : List SV) (bs : List (Option SV))
+    (hsplit : ((counted env obs).filterMap (obsValue sid)).Perm (hs.map some ++ bs)) (hmaj : bs.length < hs.length)
+    (hty : ∀ x ∈ hs, isValidQuote x = true) (hf : cfg.f < hs.length) :
+    ∃ bid bm ask, o.aggs.get? (sid, aggQuote) = some (.quote bid bm ask) ∧
+      Dec.le bid bm = true ∧ Dec.le bm ask = true ∧
+      (∃ lo ∈ hs, Dec.le (tripleOf lo).1 bid = true) ∧ (∃ hi ∈ hs, Dec.le bid (tripleOf hi).1 = true) ∧
+      (∃ lo ∈ hs, Dec.le (tripleOf lo).2.1 bm = true) ∧ (∃ hi ∈ hs, Dec.le bm (tripleOf hi).2.1 = true) ∧
+      (∃ lo ∈ hs, Dec.le (tripleOf lo).2.2 ask = true) ∧ (∃ hi ∈ hs, Dec.le ask (tripleOf hi).2.2 = true) := by
+  obtain ⟨so, hso, hget⟩ := outcome_agg_lookup env cfg σ hσ n prev o obs hvals h sid aggQuote href
+  obtain ⟨hex, hrange⟩ := quote_range_ordered ((so.get? sid).getD []) cfg.f hs bs (by rw [hso]; exact hsplit) hmaj hty
+  obtain ⟨r, hr⟩ := hex hf
+  obtain ⟨bid, bm, ask, hd, hrest⟩ := hrange r hr
+  subst hd
+  refine ⟨bid, bm, ask, ?_, hrest⟩
+  rw [hget]
+  unfold valueOf aggOneValue aggregate
+  simp [aggQuote, aggMedian, aggMode, hr, GoRes.bind]
 
 /-- the timestamp a correct node contributes is its own clock reading (whole `observation()` model) -/
 theorem honest_ts_is_clock (env : Env) (cfg : Cfg) (seqNr : Nat) (prev : Outcome) (nd : Node) (o : Obs)
